@@ -83,12 +83,15 @@ EntryOf(T, nm) == IF \E e \in T : e.n = nm THEN (CHOOSE e \in T : e.n = nm).k EL
 Blob(k) == IF k.t = "d" THEN NoK ELSE k                              \* _skip_tree
 Fmt(k) == k.t
 
+\* posixpath.join as used for the paths below a directory entry: an empty directory name adds nothing
+DirPrefix(prefix, nm) == IF nm = <<"">> THEN prefix ELSE prefix \o nm
+
 \* iter_tree_contents: entries in tree order, directories expanded in place
 RECURSIVE FlatSeqOf(_, _, _)
 FlatSeqOf(T, names, prefix) ==
     IF names = <<>> THEN <<>>
     ELSE LET nm == Head(names)  k == EntryOf(T, nm) IN
-         (IF k.t = "d" THEN FlatSeqOf(k.ch, SortNames({c.n : c \in k.ch}), prefix \o nm)
+         (IF k.t = "d" THEN FlatSeqOf(k.ch, SortNames({c.n : c \in k.ch}), DirPrefix(prefix, nm))
           ELSE <<[p |-> prefix \o nm, k |-> k]>>) \o FlatSeqOf(T, Tail(names), prefix)
 FlatSeq(T) == FlatSeqOf(T, SortNames({e.n : e \in T}), <<>>)
 
@@ -122,7 +125,7 @@ ChangesIn(T1, T2, names, prefix, wantU) ==
              c2 == IF k2.t = "d" THEN k2.ch ELSE {}
          IN EmitPair(Blob(k1), Blob(k2), prefix \o nm, wantU)
             \o (IF k1.t = "d" \/ k2.t = "d"
-                THEN ChangesIn(c1, c2, SortNames({c.n : c \in c1 \cup c2}), prefix \o nm, wantU) ELSE <<>>)
+                THEN ChangesIn(c1, c2, SortNames({c.n : c \in c1 \cup c2}), DirPrefix(prefix, nm), wantU) ELSE <<>>)
             \o ChangesIn(T1, T2, Tail(names), prefix, wantU)
 
 TreeChanges(T1, T2, wantU) == ChangesIn(T1, T2, SortNames({e.n : e \in T1 \cup T2}), <<>>, wantU)
@@ -535,7 +538,8 @@ Confined == ~esc /\ Protected(fs) = Protected(InitFS)
 \* no element that is unsafe under the current settings exists in the work tree
 UnsafeRefused == \A p \in DOMAIN fs : InWT(p) =>
                     \A i \in (Len(W) + 1)..Len(p) :
-                        Unsafe(Chars[p[i]], prot) => (p[i] = ".git" /\ i = Len(p) /\ fs[p].c = "M")
+                        (p[i] \in DOMAIN Chars /\ Unsafe(Chars[p[i]], prot))
+                            => (p[i] = ".git" /\ i = Len(p) /\ i > Len(W) + 1 /\ fs[p].c = "M")
 \* exploration stops where the index records a gitlink with a symbolic link's mode (not modelled further)
 Modelled == \A p \in DOMAIN idx : idx[p].t # "gl"
 TypeOK == /\ n \in 0..MaxLen /\ out.res \in {"ok", "refused", "err"} /\ esc \in BOOLEAN
